@@ -194,7 +194,7 @@ def output_sxr(d, ctx):
     ctx.nontrivial(Ks >= 2)
 
 
-@subcheck(SUBCHECKS, 'set_get_snr', quick=500, thorough=8000)
+@subcheck(SUBCHECKS, 'set_get_snr', quick=500, thorough=8000, fuzz=3000)
 def set_get_snr(d, ctx):
     from pb_bss.evaluation.sxr_module import get_snr, set_snr
     lead = tuple(d.int(1, 3) for _ in range(d.int(0, 2)))
